@@ -7,6 +7,7 @@ for s in $seeds; do
   prop=$(python3 -c "import json;print(json.load(open('/verif/seeded/$s/meta.json'))['breaks_property'])")
   also=$(python3 -c "import json;print(' '.join(json.load(open('/verif/seeded/$s/meta.json')).get('also_check',[])))")
   git -C /repo apply /verif/seeded/$s/patch.diff || { echo "$s: patch does not apply"; continue; }
+  rm -rf /verif/target/evidence.bak; cp -r /verif/evidence /verif/target/evidence.bak
   for p in $prop $also; do
     out=$(./check $p --tier quick 2>&1); rc=$?
     sig=$(echo "$out" | grep -E "signature=" | head -2 | sed -E 's/.*group=([^ ]+) signature=([^ ]+).*/\1:\2/' | paste -sd, )
@@ -14,4 +15,5 @@ for s in $seeds; do
     rm -rf /verif/replay/$p/found
   done
   git -C /repo checkout -- .
+  rm -rf /verif/evidence; mv /verif/target/evidence.bak /verif/evidence
 done
